@@ -300,12 +300,12 @@ func (e *Engine) loadContracts(dir string, pkg *types.Package) error {
 			cur.Recursion = n
 		case "at":
 			// at "<text>" assert label: expr   |   at "<text>" set g(key) := value
-			m := regexp.MustCompile(`^"([^"]*)"\s+(assert|set|assume)\s+(.*)$`).FindStringSubmatch(rest)
+			m := regexp.MustCompile(`^"([^"]*)"\s+(assert|set|pre|assume)\s+(.*)$`).FindStringSubmatch(rest)
 			if m == nil {
 				return fmt.Errorf("%s:%d: bad at directive", path, d.line)
 			}
 			h := &AtHook{Pattern: m[1], Kind: m[2], Src: rest}
-			if m[2] == "set" {
+			if m[2] == "set" || m[2] == "pre" {
 				mm := regexp.MustCompile(`^([A-Za-z_][A-Za-z0-9_]*)\((.*)\)\s*:=\s*(.*)$`).FindStringSubmatch(expand(m[3]))
 				if mm == nil {
 					return fmt.Errorf("%s:%d: bad ghost assignment", path, d.line)
